@@ -625,13 +625,15 @@ func rangeOn(p *core.Path, v ssa.Value) (lo, hi int64) {
 // library searches: s = Index(key,'{'), e = Index(key[s+1:],'}') (e relative
 // to s+1), tag = key[s+1 : s+1+e].
 func slotFunctionIndexIdiom(w *core.World, r *core.Report, f *ssa.Function, key ssa.Value, cons string, argOf func(*ssa.Return) ssa.Value) (string, bool) {
+	// the key itself, or the parameter of a helper (expanded at its only call site) that is handed the key
+	isKey := func(v ssa.Value) bool { return v == key || core.Unwrap(v) == key }
 	var sCall, eCall ssa.Value
 	for _, in := range core.Instrs(f) {
 		v, ok := in.(ssa.Value)
 		if !ok {
 			continue
 		}
-		if x, ok := isIndexOf(v, '{'); ok && x == key {
+		if x, ok := isIndexOf(v, '{'); ok && isKey(x) {
 			sCall = v
 		}
 	}
@@ -648,7 +650,7 @@ func slotFunctionIndexIdiom(w *core.World, r *core.Report, f *ssa.Function, key 
 			continue
 		}
 		if x, ok := isIndexOf(v, '}'); ok {
-			if sl, ok := x.(*ssa.Slice); ok && sl.X == key && sl.Low != nil && isS1(sl.Low) && sl.High == nil {
+			if sl, ok := x.(*ssa.Slice); ok && isKey(sl.X) && sl.Low != nil && isS1(sl.Low) && sl.High == nil {
 				eCall = v
 			}
 		}
@@ -699,7 +701,7 @@ func slotFunctionIndexIdiom(w *core.World, r *core.Report, f *ssa.Function, key 
 				eEvaluated = true
 			}
 		}
-		if arg == key {
+		if isKey(arg) {
 			nWhole++
 			sMiss := sHi < 0
 			_ = eLo
@@ -710,10 +712,10 @@ func slotFunctionIndexIdiom(w *core.World, r *core.Report, f *ssa.Function, key 
 			return
 		}
 		sl, ok := arg.(*ssa.Slice)
-		good := ok && sl.X == key && sl.Low != nil && isS1(sl.Low) && sl.High != nil && isHigh(sl.High)
+		good := ok && isKey(sl.X) && sl.Low != nil && isS1(sl.Low) && sl.High != nil && isHigh(sl.High)
 		if ok && !good {
 			// the same substring cut in two steps: rest := key[s+1:], tag := rest[:e]
-			if inner, isSl := sl.X.(*ssa.Slice); isSl && inner.X == key && inner.Low != nil && isS1(inner.Low) && inner.High == nil &&
+			if inner, isSl := sl.X.(*ssa.Slice); isSl && isKey(inner.X) && inner.Low != nil && isS1(inner.Low) && inner.High == nil &&
 				(sl.Low == nil || isConstInt(0)(sl.Low)) && sl.High == eCall {
 				good = true
 			}
